@@ -247,9 +247,25 @@ pub fn add_signed_mul_same_len(
     carry_c3 += add::add_signed_same_len_in_place(&mut c[3 * n3..5 * n3 + 2], -sign, t2);
 
     // Apply carries.
+    #[cfg(dashu_verif)]
+    if crate::verif_probe::word_carry_propagates(&c[2 * n3..3 * n3 + 2], carry_c0) {
+        crate::verif_probe::hit(0);
+    }
     carry_c1 += add::add_signed_word_in_place(&mut c[2 * n3..3 * n3 + 2], carry_c0);
+    #[cfg(dashu_verif)]
+    if crate::verif_probe::word_carry_propagates(&c[3 * n3 + 2..4 * n3 + 2], carry_c1) {
+        crate::verif_probe::hit(1);
+    }
     carry_c2 += add::add_signed_word_in_place(&mut c[3 * n3 + 2..4 * n3 + 2], carry_c1);
+    #[cfg(dashu_verif)]
+    if crate::verif_probe::word_carry_propagates(&c[4 * n3 + 2..5 * n3 + 2], carry_c2) {
+        crate::verif_probe::hit(2);
+    }
     carry_c3 += add::add_signed_word_in_place(&mut c[4 * n3 + 2..5 * n3 + 2], carry_c2);
+    #[cfg(dashu_verif)]
+    if crate::verif_probe::word_carry_propagates(&c[5 * n3 + 2..], carry_c3) {
+        crate::verif_probe::hit(3);
+    }
     carry += add::add_signed_word_in_place(&mut c[5 * n3 + 2..], carry_c3);
 
     debug_assert!(carry.abs() <= 1);
